@@ -1,4 +1,5 @@
 import Mimic.Cursor
+import MimicProofs.HandlersCode
 /-!
 # C11 — Server-side cursors deliver every row exactly once, in order
 -/
@@ -136,5 +137,64 @@ theorem fetch_boom (rows : List Nat) (n : Nat) (h : rows.length < n) :
 example : (fetches { rows := [0, 1, 2, 3, 4, 5, 6] } [2, 2, 0, 5, 1]).1 =
     [.rows [0, 1] .cursorExists, .rows [2, 3] .cursorExists, .rows [] .cursorExists,
      .rows [4, 5, 6] .lastRowSent, .rows [] .lastRowSent] := by decide
+
+/-! ### the handlers themselves (`Mimic.Extracted.HandlersCode`, regenerated from `/repo` by `harness/pytrans3.py`)
+
+`Connection.handle_stmt_fetch / handle_stmt_reset / handle_stmt_close` are translated statement by statement into
+functions over the connection object (registry of prepared statements, list of outside effects), exceptions carrying the
+object state at the raise.  `Spec row c res m` says that the handler result `res` from connection `c` is the model's
+step result `m`: same registry (read off the dictionary by `absStmts`), same rows in the same order, the terminator the
+model prescribes; `row` names packets and is arbitrary. -/
+section code
+open Mimic.Extracted.HandlersCode MimicProofs.HandlersCode
+variable {S : Type} [DecidableEq S]
+
+/-- **`handle_stmt_fetch` is the model's fetch** for every connection state, statement id, fetch size and cursor
+    (raising ones included): the theorems above about `fetchSrc` / `step` are theorems about the code. -/
+theorem fetch_is_code (row : Mimic.Py.Bytes → Nat) (c : Connection S) (data : Mimic.Py.Bytes) (f : Mimic.Extracted.ParsersCode.ComStmtFetch S)
+    (nxt : Nat) (hp : Mimic.Extracted.ParsersCode.parse_handle_stmt_fetch (S := S) data = some f) :
+    Spec row c (handle_stmt_fetch c data) (step ⟨absStmts row c, nxt⟩ (.fetch f.stmt_id f.num_rows)) :=
+  handle_stmt_fetch_refines row c data f nxt hp
+
+theorem reset_is_code (row : Mimic.Py.Bytes → Nat) (c : Connection S) (data : Mimic.Py.Bytes) (f : Mimic.Extracted.ParsersCode.ComStmtReset S)
+    (nxt : Nat) (hp : Mimic.Extracted.ParsersCode.parse_com_stmt_reset (S := S) data = some f) :
+    Spec row c (handle_stmt_reset c data) (step ⟨absStmts row c, nxt⟩ (.reset f.stmt_id)) :=
+  handle_stmt_reset_refines row c data f nxt hp
+
+theorem close_is_code (row : Mimic.Py.Bytes → Nat) (c : Connection S) (data : Mimic.Py.Bytes) (f : Mimic.Extracted.ParsersCode.ComStmtClose S)
+    (nxt : Nat) (hp : Mimic.Extracted.ParsersCode.parse_com_stmt_close (S := S) data = some f) :
+    Spec row c (handle_stmt_close c data) (step ⟨absStmts row c, nxt⟩ (.close f.stmt_id)) :=
+  handle_stmt_close_refines row c data f nxt hp
+
+/-- **Every row exactly once, in order, for every sequence of fetch sizes — on the translated code, byte for byte.**
+    After any list of COM_STMT_FETCH packets for statement `id` (any sizes, zero and beyond-the-end included) run one after
+    the other by the command loop, the row packets written are exactly the first `Σ sizes` packets of the cursor in
+    order (nothing skipped, nothing repeated), the statement's cursor holds exactly the remaining ones, and no other
+    statement changed. -/
+theorem code_fetches_in_order (id : Nat) (pkts : List (Mimic.Py.Bytes × Mimic.Extracted.ParsersCode.ComStmtFetch S)) (c : Connection S)
+    (stmt : PreparedStatement S) (rows : List Mimic.Py.Bytes)
+    (hp : ∀ x ∈ pkts, Mimic.Extracted.ParsersCode.parse_handle_stmt_fetch (S := S) x.1 = some x.2 ∧ x.2.stmt_id = id)
+    (hget : Mimic.Py.dictGet c.prepared_stmts id = some stmt) (hcur : stmt.cursor = some ⟨rows, false⟩) :
+    (∃ tail, (runFetches c (pkts.map (·.1))).out = c.out ++ tail ∧ rowsOut tail = rows.take (pkts.map (·.2.num_rows)).sum) ∧
+    Mimic.Py.dictGet (runFetches c (pkts.map (·.1))).prepared_stmts id
+      = some { stmt with cursor := some ⟨rows.drop (pkts.map (·.2.num_rows)).sum, false⟩ } ∧
+    (∀ k, k ≠ id → Mimic.Py.dictGet (runFetches c (pkts.map (·.1))).prepared_stmts k = Mimic.Py.dictGet c.prepared_stmts k) :=
+  MimicProofs.HandlersCode.code_fetches_in_order id pkts c stmt rows hp hget hcur
+
+/-- a malformed COM_STMT_FETCH / RESET / CLOSE / SEND_LONG_DATA packet raises before anything is changed or written -/
+theorem code_malformed_changes_nothing (c : Connection S) (data : Mimic.Py.Bytes) :
+    (Mimic.Extracted.ParsersCode.parse_handle_stmt_fetch (S := S) data = none → handle_stmt_fetch c data = .error c) ∧
+    (Mimic.Extracted.ParsersCode.parse_com_stmt_reset (S := S) data = none → handle_stmt_reset c data = .error c) ∧
+    (Mimic.Extracted.ParsersCode.parse_com_stmt_close (S := S) data = none → handle_stmt_close c data = .error c) ∧
+    (Mimic.Extracted.ParsersCode.parse_com_stmt_send_long_data (S := S) data = none → handle_stmt_send_long_data c data = .error c) :=
+  malformed_changes_nothing c data
+
+/-- non-vacuity: a concrete connection with one statement whose cursor holds three packets; fetches of 2 and 5 -/
+example :
+    let c : Connection Unit := ⟨0, 0, [(7, ⟨7, (), 0, none, some ⟨[[1], [2], [3]], false⟩⟩)], []⟩
+    let d (n : UInt8) : Mimic.Py.Bytes := [7, 0, 0, 0, n, 0, 0, 0]
+    rowsOut (runFetches c [d 2, d 5]).out = [[1], [2], [3]] := by decide
+
+end code
 
 end MimicProps.C11
